@@ -64,7 +64,9 @@ class BoundMethod:
 
 
 class LoopSpec:
-    def __init__(self, counter=None, inv=(), variant=None, havoc=None, unroll=None, exit_assume=()):
+    def __init__(self, counter=None, inv=(), variant=None, havoc=None, unroll=None, exit_assume=(), modifies=None):
+        self.modifies = modifies or {}  # buffer variable -> spec lambda over indices: region that may be written
+                                        # while the loop runs (frame: everything else keeps its pre-loop content)
         self.counter = counter          # ghost name of the iteration counter
         self.inv = list(inv)            # spec expressions (strings)
         self.variant = variant          # spec expression (string) that must decrease and stay >= 0
@@ -77,7 +79,8 @@ class Contract:
     def __init__(self, params=None, requires=(), ensures=(), raises=None, loops=None, theory=None,
                  inline=(), opaque=(), ghosts=None, public_ensures=(), modifies=(), result=None,
                  fields=None, pure=True, frame=(), no_raise=False, mode='unbounded', defaults=None,
-                 ensures_exc=None, result_kind=None, notes=''):
+                 ensures_exc=None, result_kind=None, notes='', ladder=None):
+        self.ladder = ladder or []
         self.params = params or {}
         self.requires = list(requires)
         self.ensures = list(ensures)
@@ -124,6 +127,8 @@ class Exec:
         self.feas.set('timeout', 300)
         self.path_count = 0
         self.unsupported = None
+        self.pending_defs = []
+        self.spec_role = 'goal'
 
     # ---------------------------------------------------------------------------------------
     def _number_loops(self, fnode):
@@ -170,6 +175,8 @@ class Exec:
         return vc
 
     def emit_all(self, st, kind, obls, node):
+        if self.spec_mode:
+            return
         for c, what in obls:
             if c is True:
                 continue
@@ -203,7 +210,7 @@ class Exec:
             self.spec_funcs.update(names)
             self.axioms.extend(axioms)
         for r in self.contract.requires:
-            st.assume(self.eval_spec(r, st))
+            st.assume(self.eval_spec(r, st, role='hyp'))
         self.entry = st.copy()
         outs = self.exec_block(fnode.body, st)
         for s, oc in outs:
@@ -311,7 +318,9 @@ class Exec:
     # ---------------------------------------------------------------------------------------
     # specification expressions
 
-    def eval_spec(self, text, st, entry=False, extra=None):
+    def eval_spec(self, text, st, entry=False, extra=None, role='goal'):
+        """role 'hyp': the formula will be assumed; 'goal': it will be proved.  Definitional instances of the
+        spec functions that occur are conjoined (hyp) / put in front as antecedent (goal)."""
         if callable(text):
             return text(self, st)
         node = ast.parse(text, mode='eval').body
@@ -323,12 +332,26 @@ class Exec:
             s = s.copy()
             s.env.update(extra)
         self.spec_mode += 1
+        old_role = self.spec_role
+        self.spec_role = role
+        self.pending_defs.append([])
         try:
             v = self.eval(node, s)
+            t = truthy(v)
         finally:
+            defs = self.pending_defs.pop()
             self.spec_mode -= 1
-        t = truthy(v)
-        return t
+            self.spec_role = old_role
+        return self.wrap_defs(defs, t, role)
+
+    def wrap_defs(self, defs, body, role):
+        defs = [d for d in defs if d is not True]
+        if not defs:
+            return body
+        d = z3.And(*[to_z3(x) for x in defs]) if len(defs) > 1 else to_z3(defs[0])
+        if role == 'hyp':
+            return z3.And(d, to_z3(body))
+        return z3.Implies(d, to_z3(body))
 
     def eval_spec_value(self, text, st, extra=None):
         node = ast.parse(text, mode='eval').body
@@ -377,6 +400,18 @@ class Exec:
                 return [(st, None)]
             if nm in ('exit',) or (isinstance(f, ast.Attribute) and f.attr == 'exit'):
                 return [(st, (Outcome.RAISE, 'SystemExit', node))]
+            if isinstance(f, ast.Attribute) and isinstance(f.value, ast.Name) and f.attr in ('append', 'insert') \
+                    and isinstance(st.env.get(f.value.id), SeqVal):
+                # list mutation on a z3-Seq modelled list (value semantics: the list must not be aliased)
+                cur = st.env[f.value.id]
+                args = [self.eval(a, st) for a in node.value.args]
+                if f.attr == 'append':
+                    st.env[f.value.id] = SeqVal(z3.Concat(cur.s, z3.Unit(cur.elem.pack(args[0]))), cur.elem)
+                else:
+                    if not (is_conc_num(args[0]) and args[0] == 0):
+                        raise Unsupported('list.insert at a position other than 0')
+                    st.env[f.value.id] = SeqVal(z3.Concat(z3.Unit(cur.elem.pack(args[1])), cur.s), cur.elem)
+                return [(st, None)]
         self.eval(node.value, st)
         return [(st, None)]
 
@@ -460,6 +495,12 @@ class Exec:
 
     def assign(self, target, v, st):
         if isinstance(target, ast.Name):
+            if isinstance(v, ArrayVal) and not self.spec_mode:
+                v = lib._new_buffer(st, v, target.id)      # numpy results are fresh mutable arrays
+            hints = self.contract.ghosts.get('seqvars', {})
+            if isinstance(v, list) and not v and target.id in hints:
+                cod = hints[target.id]
+                v = SeqVal(z3.Empty(z3.SeqSort(cod.sort)), cod)
             st.env[target.id] = v
             return
         if isinstance(target, (ast.Tuple, ast.List)):
@@ -578,12 +619,21 @@ class Exec:
             return OptVal(z3.Bool(fresh_name(name + '.none')), self.havoc_value(st, name, v.some), v.truthy_when_some)
         raise Unsupported('havoc of %s = %r' % (name, v))
 
-    def havoc(self, st, names, bufs, attrs, keep_shape_of=()):
+    def havoc(self, st, names, bufs, attrs, regions=None):
+        regions = regions or {}
         for n in sorted(bufs):
             v = st.env.get(n)
             if isinstance(v, (NDRef, PyList)):
                 old = st.store[v.buf]
-                st.store[v.buf] = fresh_array(old.shape, old.dtype if old.dtype != 'obj' else 'val', n)
+                fresh = fresh_array(old.shape, old.dtype if old.dtype != 'obj' else 'val', n)
+                if n in regions:
+                    reg = regions[n]
+
+                    def get(*idx, reg=reg, fresh=fresh, old=old):
+                        return ite(to_z3(reg(*idx)), fresh.get(*idx), old.get(*idx))
+                    st.store[v.buf] = ArrayVal(old.shape, get, old.dtype)
+                else:
+                    st.store[v.buf] = fresh
         for n in sorted(names):
             if n in st.env:
                 v = st.env[n]
@@ -594,6 +644,22 @@ class Exec:
             if a in st.heap:
                 arr, cod = st.heap[a]
                 st.heap[a] = (z3.Const(fresh_name('H_' + a), arr.sort()), cod)
+
+    def region_fn(self, lam, st, cname, cnt):
+        node = ast.parse(lam, mode='eval').body
+        snap = st.copy()
+        snap.env[cname] = cnt
+
+        def fn(*idx):
+            s = snap.copy()
+            for a, v in zip(node.args.args, idx):
+                s.env[a.arg] = v
+            self.spec_mode += 1
+            try:
+                return truthy(self.eval(node.body, s))
+            finally:
+                self.spec_mode -= 1
+        return fn
 
     def rebound_names(self, body):
         """names that are assigned as plain names (rebinding) in the body"""
@@ -732,12 +798,17 @@ class Exec:
             self.emit(st, 'inv-init#%d.%d' % (k, i), self.eval_spec(inv, st), node, inv)
         # 2. arbitrary iteration
         body_st = st.copy()
-        self.havoc(body_st, names - {cname}, bufs, attrs)
         cnt = z3.Int(fresh_name(cname))
+        regions = {}
+        for bn, lam in spec.modifies.items():
+            regions[bn] = self.region_fn(lam, body_st, cname, cnt)
+        self.havoc(body_st, names - {cname}, bufs, attrs, regions)
         body_st.env[cname] = cnt
         body_st.assume(cnt >= 0)
+        head_content = {bn: (body_st.env[bn].buf, body_st.store[body_st.env[bn].buf]) for bn in spec.modifies
+                        if isinstance(body_st.env.get(bn), NDRef)}
         for inv in spec.inv:
-            body_st.assume(self.eval_spec(inv, body_st))
+            body_st.assume(self.eval_spec(inv, body_st, role='hyp'))
         exit_st = body_st.copy()
         results = []
         if ln is not None:
@@ -757,6 +828,19 @@ class Exec:
                     s2.env[cname] = cnt + 1
                     for i, inv in enumerate(spec.inv):
                         self.emit(s2, 'inv-pres#%d.%d' % (k, i), self.eval_spec(inv, s2), node, inv)
+                    for bn, (bufid, head) in head_content.items():
+                        # frame: cells outside the (next) region keep the content they had at the loop head,
+                        # and the region only grows
+                        nxt = self.region_fn(spec.modifies[bn], s2, cname, cnt + 1)
+                        cur = self.region_fn(spec.modifies[bn], s2, cname, cnt)
+                        idx = [z3.Int(fresh_name('f')) for _ in head.shape]
+                        inb = z3.And(*[z3.And(x >= 0, x < to_int(n_)) for x, n_ in zip(idx, head.shape)])
+                        now = s2.store[bufid]
+                        same = to_z3(s_eq(now.get(*idx), head.get(*idx)))
+                        self.emit(s2, 'frame#%d:%s' % (k, bn), z3.ForAll(idx, z3.Implies(
+                            z3.And(inb, z3.Not(to_z3(nxt(*idx)))), same)), node, 'outside the declared region nothing changes')
+                        self.emit(s2, 'frame-mono#%d:%s' % (k, bn), z3.ForAll(idx, z3.Implies(
+                            z3.And(inb, to_z3(cur(*idx))), to_z3(nxt(*idx)))), node, 'modified region grows monotonically')
                     if spec.variant:
                         s2.env[cname] = cnt
                         v1 = self.eval_spec_value(spec.variant, s2)
@@ -773,7 +857,7 @@ class Exec:
             c = truthy(self.eval(test, exit_st))
             exit_st.assume(bnot(c))
         for e in spec.exit_assume:
-            exit_st.assume(self.eval_spec(e, exit_st))
+            exit_st.assume(self.eval_spec(e, exit_st, role='hyp'))
         if self.feasible(exit_st):
             results.append((exit_st, None))
         return results
@@ -826,7 +910,19 @@ class Exec:
     # ---------------------------------------------------------------------------------------
     # expressions
 
+    def nonneg_oracle(self, st):
+        def oracle(i):
+            if self.spec_mode:
+                return True        # specification expressions index with mathematical (non-wrapping) indices
+            try:
+                return not self.feasible(st, to_int(i) < 0)
+            except Exception:
+                return False
+        return oracle
+
     def eval(self, node, st):
+        import pyvc.arrays as _arr
+        _arr.NONNEG_ORACLE[0] = self.nonneg_oracle(st)
         m = getattr(self, 'expr_' + type(node).__name__, None)
         if m is None:
             raise Unsupported('expression %s at line %s' % (type(node).__name__, getattr(node, 'lineno', '?')))
@@ -1166,7 +1262,9 @@ class Exec:
         if len(idxs) == 1 and not isinstance(idxs[0], tuple):
             ia = as_array(st, idxs[0])
             if ia.dtype == 'bool':
-                return MaskedSel(a, ia)
+                ms = MaskedSel(a, ia)
+                ms.key = mask_key(idxs[0])
+                return ms
             # gather along the first axis
             n0 = a.shape[0]
             j = z3.Int(fresh_name('g'))
@@ -1220,6 +1318,10 @@ class Exec:
                     return self.fancy_write(base, arrs, v, st, node)
                 ia = as_array(st, x)
                 if ia.dtype == 'bool':
+                    if isinstance(v, MaskedSel):
+                        if getattr(v, 'key', None) != mask_key(x):
+                            raise Unsupported('masked selection assigned through a different mask (line %d)' % node.lineno)
+                        v.mask = ia
                     self.emit_all(st, 'shape', write_view(st, base, v, mask=ia), node)
                     return
                 return self.fancy_write(base, [ia], v, st, node)
@@ -1448,6 +1550,8 @@ class Exec:
 
     def call(self, f, args, kwargs, st, node):
         if isinstance(f, SpecFunc):
+            if f.defn is not None and self.pending_defs:
+                self.pending_defs[-1].append(f.defn(*args))
             return f.fn(*args)
         if callable(f) and not isinstance(f, (Closure, Opaque, BoundMethod)):
             return f(self, st, *args, **kwargs)
@@ -1612,14 +1716,24 @@ class Exec:
         env2 = dict(env)
         env2['result'] = res
         for e in con.public_ensures:
-            st.assume(self.eval_spec(e, st, extra=env2))
+            st.assume(self.eval_spec(e, st, extra=env2, role='hyp'))
         self.assumed.append('callee contract: %s' % qual)
         return res
 
 
+def mask_key(m):
+    if isinstance(m, NDRef):
+        return (m.buf, tuple((str(d.fixed), str(d.start), str(d.step), str(d.length)) for d in m.dims))
+    return id(m)
+
+
 class SpecFunc:
-    def __init__(self, fn, name=''):
-        self.fn, self.name = fn, name
+    """specification function.  defn(*args) (optional) is a *valid* fact about this application (one unfolding of
+    the recursive definition); the engine conjoins it next to every occurrence instead of handing the solver a
+    self-triggering quantified axiom (no matching loops, deterministic proofs)."""
+
+    def __init__(self, fn, name='', defn=None):
+        self.fn, self.name, self.defn = fn, name, defn
 
 
 _MISSING = object()
